@@ -23,8 +23,17 @@ HOOKS = ["before_all", "after_all", "before_feature", "after_feature", "before_r
 
 
 # ------------------------------------------------------------------ rendering
+NOISE = {"F": "", "S": "", "step": ""}       # set per run from cfg["noise"]: text appended to names after " ~ "
+SEP = " ~ "
+
+
+def noisy(kind, base):
+    n = NOISE.get(kind) or ""
+    return base + (SEP + n if n else "")
+
+
 def step_name(s):
-    return "%s %d" % (s["kind"], s["id"])
+    return noisy("step", "%s %d" % (s["kind"], s["id"]))
 
 
 def render_steps(steps, ind, out):
@@ -40,10 +49,10 @@ def tagline(tags, ind, out):
 def render_item(it, ind, out):
     tagline(it["tags"], ind, out)
     if it["kind"] == "scenario":
-        out.append("%sScenario: S%d" % (ind, it["id"]))
+        out.append("%sScenario: %s" % (ind, noisy("S", "S%d" % it["id"])))
         render_steps(it["steps"], ind + "  ", out)
     else:
-        out.append("%sScenario Outline: O%d" % (ind, it["id"]))
+        out.append("%sScenario Outline: %s" % (ind, noisy("S", "O%d" % it["id"])))
         render_steps(it["steps"], ind + "  ", out)
         for ex in it["examples"]:
             tagline(ex["tags"], ind + "  ", out)
@@ -56,7 +65,7 @@ def render_item(it, ind, out):
 def render_feature(f):
     out = []
     tagline(f["tags"], "", out)
-    out.append("Feature: F%d" % f["id"])
+    out.append("Feature: %s" % noisy("F", "F%d" % f["id"]))
     if f["bg"] is not None:
         out.append("  Background: fb%d" % f["id"])
         render_steps(f["bg"], "    ", out)
@@ -113,7 +122,7 @@ class _LogList(list):
         self._log = log
 
     def append(self, step):
-        self._log.append(["undef", int(step.name.split()[-1])])
+        self._log.append(["undef", int(step.name.split(SEP)[0].split()[-1])])
         super().append(step)
 
 
@@ -129,6 +138,9 @@ def run_program(prog, extra_formatters=None, reporters=None, config_hook=None, w
     import behave.model as bmodel
 
     cfg = prog["cfg"]
+    noise = cfg.get("noise") or {}
+    NOISE.update({"F": noise.get("feature", ""), "S": noise.get("scenario", ""), "step": noise.get("step", "")})
+    msg_noise = noise.get("message", "")
     log, fmt = [], []
     faults = set((h, str(k)) for h, k in cfg.get("faults", []))
     fault_kind = cfg.get("fault_kind", "exception")
@@ -138,16 +150,20 @@ def run_program(prog, extra_formatters=None, reporters=None, config_hook=None, w
     cur = {"scenario": None}
 
     def mk(kind):
-        def impl(context, n):
-            sc = str(context.scenario.name)
+        def impl(context, n, noise_text=None):
+            sc = str(context.scenario.name).split(SEP)[0]
             log.append(["step", kind, n, sc, "wip" in context.scenario.effective_tags])
+            if noise.get("stdout"):
+                sys.stdout.write(noise["stdout"])
+            if noise.get("stderr"):
+                sys.stderr.write(noise["stderr"])
             if kind == "fail":
                 if n % 2:
-                    raise _MyAssertion("step %d fails" % n)
-                assert False, "step %d fails" % n
+                    raise _MyAssertion("step %d fails%s" % (n, msg_noise))
+                assert False, "step %d fails%s" % (n, msg_noise)
             if kind == "error":
                 # "other exception -> error": vary the exception class by step id
-                raise _ERRORS[n % len(_ERRORS)]("step %d raises" % n)
+                raise _ERRORS[n % len(_ERRORS)]("step %d raises%s" % (n, msg_noise))
             if kind == "pending":
                 if n % 2:
                     raise PendingStepError("step %d pending" % n)
@@ -164,6 +180,7 @@ def run_program(prog, extra_formatters=None, reporters=None, config_hook=None, w
     for kind in KINDS:
         if kind != "undefined":
             registry.add_step_definition("step", "%s {n:d}" % kind, mk(kind))
+            registry.add_step_definition("given", "%s {n:d}%s{noise_text}" % (kind, SEP), mk(kind))
 
     # ---- hooks
     def key_of(arg):
@@ -171,7 +188,7 @@ def run_program(prog, extra_formatters=None, reporters=None, config_hook=None, w
             return "0"
         if isinstance(arg, str):
             return str.__str__(arg)
-        name = str(arg.name)
+        name = str(arg.name).split(SEP)[0]
         if hasattr(arg, "step_type"):
             return name.split()[-1]
         return name
